@@ -201,6 +201,32 @@ func c19One(env *Env, m *wvlib.Model, c *C19Case) {
 		return
 	}
 	zb := buf.Bytes()
+	if c.Interrupt < 0 && c.Seed%3 == 0 {
+		// the entry point that takes the archive's PATH (opens it itself, closes it itself)
+		ap, outp := base+"/a.zip", base+"/out-path"
+		os.WriteFile(ap, zb, 0o644)
+		res, err := func() (res *archiver.ExtractResult, err error) {
+			defer func() {
+				if r := recover(); r != nil {
+					err = fmt.Errorf("PANIC %v", r)
+				}
+			}()
+			return archiver.ExtractPath(ap, outp, archiver.ExtractSettings{Consumer: cons, Concurrency: c.Workers})
+		}()
+		if err != nil {
+			env.R.Violate("extract-error:zip:ExtractPath", err.Error(), c)
+		} else {
+			got, _ := wvlib.ReadTree(outp)
+			if d := wvlib.DiffTrees(got, tree); d != "" {
+				env.R.Violate("tree-differs:zip:ExtractPath", d, c)
+			}
+			if res.Dirs != wd || res.Files != wf || res.Symlinks != wl {
+				env.R.Violate("counts-wrong:zip:ExtractPath", fmt.Sprintf("reported %d/%d/%d, extracted %d/%d/%d", res.Dirs, res.Files, res.Symlinks, wd, wf, wl), c)
+			}
+		}
+		os.RemoveAll(outp)
+		env.R.Count("extracted-through-ExtractPath", 1)
+	}
 	reps := c.Repeat
 	if reps < 1 {
 		reps = 1
